@@ -16,6 +16,18 @@ type WaitGroup = rsync.WaitGroup
 type Once = rsync.Once
 type Locker = rsync.Locker
 
+// The remaining types of package sync are the real ones: they are no scheduling points of the cooperative scheduler
+// (only one logical thread runs at a time), but code that uses them (a sync.Pool of buffers, a sync.Map, a Cond) must
+// still compile against the shim.
+type Pool = rsync.Pool
+type Map = rsync.Map
+type Cond = rsync.Cond
+
+func NewCond(l Locker) *Cond { return rsync.NewCond(l) }
+
+// OnceFunc and friends
+func OnceFunc(f func()) func() { return rsync.OnceFunc(f) }
+
 // RWMutex state is only touched by the running thread, so it needs no real synchronisation.
 type RWMutex struct {
 	readers int
